@@ -252,6 +252,41 @@ func checkC20(c *Ctx) {
 		"the published ticket-key slice is replaced as a whole, never written in place",
 		"handshakes that obtained the slice through ticketKeys() read it without the lock, and clones of the Config share it: a rotation races with them and changes the keys of the clones")
 	c20SharedStateful(c)
+	c20KeyLog(c)
+}
+
+// c20KeyLog: Config.KeyLogWriter is copied by Clone (and by GetConfigForClient patterns), so connections of DIFFERENT
+// Config objects write to the same io.Writer. The write must therefore be serialised by a lock that all Configs share —
+// a package-level mutex — not by a mutex that lives inside the Config.
+func c20KeyLog(c *Ctx) {
+	rule := "L-GUARDED"
+	n := 0
+	for _, f := range c.P.RepoFuncs("gmtls") {
+		for _, ci := range allCalls(f) {
+			call, ok := ci.(*ssa.Call)
+			if !ok || !call.Call.IsInvoke() || call.Call.Method.Name() != "Write" {
+				continue
+			}
+			ld, ok := call.Call.Value.(*ssa.UnOp)
+			if !ok {
+				continue
+			}
+			fa, ok := ld.X.(*ssa.FieldAddr)
+			if !ok || fieldName(fa.X.Type(), fa.Field) != "KeyLogWriter" {
+				continue
+			}
+			n++
+			l := heldLockCall(f, call)
+			global := false
+			if l != nil {
+				_, global = lockObject(l).(*ssa.Global)
+			}
+			c.Check(global, rule, fname(f), "writes to Config.KeyLogWriter are serialised by a package-level mutex", "", "the write to KeyLogWriter is not made under a lock shared by all Configs (a clone of the Config has its own mutex but the same writer): connections served through clones interleave and tear the key-log lines", call.Pos())
+		}
+	}
+	if n == 0 {
+		c.Undecided(rule, "gmtls", "writes to Config.KeyLogWriter", "none found", token.NoPos)
+	}
 }
 
 // c20SharedStateful: a gmtls.Config is shared by every connection made from it. Any struct reachable from it through
@@ -482,8 +517,101 @@ func callersRanOnce(c *Ctx, f *ssa.Function, runners map[*ssa.Function]bool, dep
 }
 
 // c20Atomic: fields touched by sync/atomic are never touched otherwise
+// c20CheckThenAct: a decision taken on an atomic.Load of a field and then committed by atomic.Add/Store on the same field
+// is not atomic as a whole — two goroutines can both pass the test and both commit (two Close calls both "set" the
+// closed bit by adding 1, which clears it). The commit must be a CompareAndSwap; an Add/Store that follows a Load in
+// the same function is accepted only when every path between them runs through the success edge of a CAS on that field.
+func c20CheckThenAct(c *Ctx) {
+	rule := "L-ATOMIC"
+	fieldOf := func(ci ssa.CallInstruction) (string, bool) {
+		if len(ci.Common().Args) == 0 {
+			return "", false
+		}
+		fa, ok := ci.Common().Args[0].(*ssa.FieldAddr)
+		if !ok {
+			return "", false
+		}
+		return fa.X.Type().String() + "." + fieldName(fa.X.Type(), fa.Field), true
+	}
+	n := 0
+	for _, pkg := range c20Pkgs {
+		for _, f := range c.P.RepoFuncs(pkg) {
+			var loads, mods []ssa.CallInstruction
+			casOK := map[string][]ssa.Instruction{}
+			for _, ci := range allCalls(f) {
+				id := calleeID(ci.Common())
+				if !strings.HasPrefix(id, "sync/atomic.") {
+					continue
+				}
+				fld, ok := fieldOf(ci)
+				if !ok {
+					continue
+				}
+				switch {
+				case strings.HasPrefix(id, "sync/atomic.Load"):
+					loads = append(loads, ci)
+				case strings.HasPrefix(id, "sync/atomic.Add"), strings.HasPrefix(id, "sync/atomic.Store"), strings.HasPrefix(id, "sync/atomic.Swap"):
+					mods = append(mods, ci)
+				case strings.HasPrefix(id, "sync/atomic.CompareAndSwap"):
+					if call, isCall := ci.(*ssa.Call); isCall {
+						for _, u := range *call.Referrers() {
+							if ifi, isIf := u.(*ssa.If); isIf {
+								t := ifi.Block().Succs[0]
+								if len(t.Instrs) > 0 {
+									casOK[fld] = append(casOK[fld], t.Instrs[0])
+								}
+							}
+						}
+					}
+				}
+			}
+			for _, l := range loads {
+				lf, _ := fieldOf(l)
+				// the loaded value decides a branch?
+				lv, isVal := l.(ssa.Value)
+				if !isVal || !feedsBranch(lv, 0) {
+					continue
+				}
+				for _, m := range mods {
+					mf, _ := fieldOf(m)
+					if mf != lf {
+						continue
+					}
+					n++
+					c.Evals++
+					ok := !reachesAvoidingAll(l, m, casOK[lf])
+					c.Check(ok, rule, fname(f), fmt.Sprintf("%s after a test of the same field is committed through CompareAndSwap #%d", strings.TrimPrefix(calleeID(m.Common()), "sync/atomic."), n), "", "the function tests an atomic.Load of "+lf+" and then modifies the field with "+calleeID(m.Common())+" on a path that does not pass the success edge of a CompareAndSwap: two goroutines can both pass the test and both commit (check-then-act), e.g. two Close calls clearing the closed bit again", m.Pos())
+				}
+			}
+		}
+	}
+}
+
+// feedsBranch: v reaches the condition of an If through arithmetic/comparison
+func feedsBranch(v ssa.Value, d int) bool {
+	if d > 4 || v.Referrers() == nil {
+		return false
+	}
+	for _, u := range *v.Referrers() {
+		switch x := u.(type) {
+		case *ssa.If:
+			return true
+		case *ssa.BinOp:
+			if feedsBranch(x, d+1) {
+				return true
+			}
+		case *ssa.UnOp:
+			if feedsBranch(x, d+1) {
+				return true
+			}
+		}
+	}
+	return false
+}
+
 func c20Atomic(c *Ctx) {
 	rule := "L-ATOMIC"
+	c20CheckThenAct(c)
 	type fkey struct {
 		t string
 		f int
@@ -869,5 +997,71 @@ func c20ConnFields(c *Ctx) {
 		if n[name] == 0 {
 			c.Undecided(rule, "gmtls.Conn", "accesses to "+name, "none found", token.NoPos)
 		}
+	}
+}
+
+// onceStateOf: package variables that are sync.Once objects or are written by the body of a sync.Once.Do call
+func onceStateOf(c *Ctx) map[string]bool {
+	fx := getFX(c)
+	out := map[string]bool{}
+	for f := range c.P.AllFns {
+		if !inRepo(f) || f.Blocks == nil {
+			continue
+		}
+		for _, ci := range allCalls(f) {
+			if calleeID(ci.Common()) != "(*sync.Once).Do" || len(ci.Common().Args) < 2 {
+				continue
+			}
+			var body *ssa.Function
+			switch x := ci.Common().Args[1].(type) {
+			case *ssa.Function:
+				body = x
+			case *ssa.MakeClosure:
+				body, _ = x.Fn.(*ssa.Function)
+			}
+			if body == nil {
+				continue
+			}
+			for r := range fx.Writes(body) {
+				if r.Kind == rkGlobal {
+					out[r.G] = true
+				}
+			}
+		}
+	}
+	for _, sp := range c.P.SSAPkg {
+		if sp == nil {
+			continue
+		}
+		for name, m := range sp.Members {
+			if g, ok := m.(*ssa.Global); ok && strings.HasSuffix(g.Type().String(), "sync.Once") {
+				out[sp.Pkg.Path()+"."+name] = true
+			}
+		}
+	}
+	return out
+}
+
+// noGlobalWrites: the named functions write no package-level state of the module (state initialised under a sync.Once
+// aside) — anything they keep across calls (a pooled buffer, a cache, a shared hasher) makes one call's result depend
+// on other calls.
+func noGlobalWrites(c *Ctx, rule string, ents [][2]string, consequence string) {
+	fx := getFX(c)
+	once := onceStateOf(c)
+	for _, e := range ents {
+		f := c.Fn(e[0], e[1])
+		if f == nil {
+			c.Missing(rule, e[0]+"."+e[1], "function", "not found")
+			continue
+		}
+		c.Evals++
+		var bad []string
+		for r, w := range fx.Writes(f) {
+			if r.Kind == rkGlobal && strings.HasPrefix(r.G, modPath) && !once[r.G] {
+				bad = append(bad, fx.describe(r, w))
+			}
+		}
+		sort.Strings(bad)
+		c.Check(len(bad) == 0, rule, fname(f), "keeps no state across calls in package variables", "effect summary over the static and interface call closure", consequence+": "+strings.Join(bad, "; "), f.Pos())
 	}
 }
